@@ -7,11 +7,13 @@ from translate import call_bodies as T
 PID = 'C03'
 SHARD_SIZE = 150
 RULE = ('random operator trees (depth 0..3/4) over the 9 expression classes of operator.py and translated / '
-        'primitive leaves (Scaling, Identity, Zero, Constant, Multiply, Matrix, ufunc absolute/square, RealPart, '
+        'primitive leaves (Scaling, Identity, Zero, Constant, Multiply, 12 proximal-factory variants, Matrix, ufunc absolute/square, RealPart, '
         'InnerProduct, L2NormSquared, harness-defined in-place-only / out-of-place-only matrix operators), '
         'sizes 2..4 and 100..130 (both lincomb regimes), user-supplied or fresh temporaries; each tree is called '
         'out-of-place and in-place (out NaN-filled or random), with x an element / list / ndarray / foreign-space '
-        'element / None / junk and out possibly outside the range; a case is non-trivial when the call reaches a '
+        'element / None / junk and out possibly outside the range; product-space operators (ProductSpaceOperator incl. '
+        'empty rows, Diagonal, Broadcast, Reduction, ComponentProjection(Adjoint)) with NaN-filled / random parts of out; '
+        'a case is non-trivial when the call reaches a '
         '_call body; distinct by (tree signature, sizes, call mode, argument kinds)')
 ASSUMPTIONS = ['exact arithmetic: entries and scalars are small integers / dyadic rationals, results compared with '
                'tolerance 1e-12; NaN and uninitialised memory are one absorbing value (None)',
@@ -826,10 +828,10 @@ LEVEL_TEXT = ('Partial proof. Coq proves, for EVERY store, every NaN-free input,
               'before any slot runs with the store untouched; (2) both default bridges are correct for all three '
               'dispatch kinds; (3) space.lincomb writes a*x1+b*x2 in both size regimes and all alias patterns; '
               '(4) by structural induction over operator trees of ANY depth built from the nine expression classes '
-              '(bodies regenerated from operator.py; fresh or user-supplied temporaries), five translated leaf classes and primitive leaves of all three '
+              '(bodies regenerated from operator.py; fresh or user-supplied temporaries), five translated leaf classes, ten translated proximal operators and primitive leaves of all three '
               'dispatch kinds incl. alias-returning ones: in-place = out-of-place = the denoted function, result is y / '
               'an element of the range, no other pre-existing object (in particular x) is modified; same for '
-              'functional-valued trees. Refuted (and recorded): out.set_zero() on < 100 entries keeps NaN, hence '
+              'functional-valued trees; ProductSpaceOperator (any entry list; loop invariants) and ComponentProjectionAdjoint. Refuted (and recorded): out.set_zero() on < 100 entries keeps NaN, hence '
               'proximal_l2 (step >= 1) in place AND out of place, and three more operators found by the probes. '
               'All other leaf classes (199 of 211 classes + 24 proximal factories + 72 ufuncs x 3 space kinds) are '
               'validated by probes that measure the leaf contract, not proved.')
